@@ -271,6 +271,7 @@ func (x *c12) checkRunnerRun() {
 	)
 	allExcl := true
 	sawGo, sawTAS, loadStore := false, false, false
+	sawUnkTAS := false
 	var resultChan ssa.Value // the MakeChan all workers send on
 	anyRecv := false
 
@@ -310,6 +311,9 @@ func (x *c12) checkRunnerRun() {
 		cl.OnBranch = func(st *xState, ifi *ssa.If, cond xVal, truth bool) bool {
 			if x.tasTried(cond, x.rmRunning) {
 				sawTAS = true
+			}
+			if x.unresolvedTAS(cond) {
+				sawUnkTAS = true
 			}
 			if x.tasWon(cond, truth, x.rmRunning) {
 				st.Client |= bOwn
@@ -369,7 +373,7 @@ func (x *c12) checkRunnerRun() {
 		cl.OnInstr = func(st *xState, in ssa.Instruction, replay bool) bool {
 			switch v := in.(type) {
 			case *ssa.Call:
-				if x.flagSetCall(v, x.rmRunning) && st.Client&bLoaded != 0 {
+				if x.flagSetCall(st, v, x.rmRunning) && st.Client&bLoaded != 0 {
 					st.Client |= bStored
 				}
 			case *ssa.Go:
@@ -378,7 +382,9 @@ func (x *c12) checkRunnerRun() {
 				if !owned && st.Client&bLoaded != 0 && st.Client&bStored != 0 {
 					owned, loadStore = true, true
 				}
-				if !owned {
+				if !owned && sawUnkTAS {
+					x.undecide("%s: a goroutine is started at %s after a test-and-set of a flag the check cannot identify", fname, x.pos(in))
+				} else if !owned {
 					x.bad("C12.K0-once", cOnce, x.pos(in), "the goroutine started at "+x.pos(in)+" can be reached without this call's own test-and-set of the running flag having succeeded: a second Run would start every runner again")
 				}
 				w := x.workerOf(st, v, cache, classify)
@@ -472,7 +478,9 @@ func (x *c12) checkRunnerRun() {
 		x.bad("C12.K0-once", cOnce, p.Pos(fn.Pos()), "Run no longer starts any goroutine: the runners are not run in parallel")
 		return
 	}
-	if !sawTAS && !loadStore {
+	if !sawTAS && !loadStore && sawUnkTAS {
+		x.undecide("%s test-and-sets a flag the check cannot identify", fname)
+	} else if !sawTAS && !loadStore {
 		x.bad("C12.K0-once", cOnce, p.Pos(fn.Pos()), "Run no longer takes ownership with an atomic test-and-set of the running flag (CompareAndSwap(false,true) / Swap(true)): a second Run would start every runner again")
 	}
 	if loadStore {
